@@ -19,12 +19,12 @@ func TestMain(m *testing.M) { fix.Main(m) }
 
 // Bitmap shapes.
 const (
-	ShEmpty = iota
-	ShArray        // ~100 B
-	ShBitmap       // one bitmap container, ~8 KiB
-	ShRuns         // run containers
-	ShMulti        // several containers
-	ShLarge        // ~64 KiB
+	ShEmpty  = iota
+	ShArray  // ~100 B
+	ShBitmap // one bitmap container, ~8 KiB
+	ShRuns   // run containers
+	ShMulti  // several containers
+	ShLarge  // ~64 KiB
 	nShapes
 )
 
